@@ -183,6 +183,14 @@ def run(ctx):
             ctx.check(ok, "ownership", "%s|%s" % (tag, c.name), c.loc(), "%s: trader id = current element of own id table, volume = configured trade_vol%s" % (
                 c.name, "" if is_env_call(c, "place_order") else ", tick = own tick_size, mid = observed mid_price"), "%s called with foreign arguments: %s" % (c.name, c.text()[:160]))
             ctx.check(q.cfg.in_loop(c.b) and len(q.cfg.loops_containing(c.b)) == 1, "activity", "%s|%s|once" % (tag, c.name), c.loc(), "placement inside the per-trader loop, not in an inner loop")
+        # which probability gates which action (noise agents; momentum probabilities are C17's subject)
+        if "Noise" in tag:
+            for c in sites:
+                want = "p_market" if is_env_call(c, "place_order") else "p_limit"
+                ps = [a[3] for a in c.guards if a[0] == "cmp" and a[1] == "lt" and a[2][0] == "call" and a[2][4] == "gen"]
+                okp = len(ps) == 1 and field_chain(ps[0])[1][-2:] == ["params", want] and field_chain(ps[0])[0] == ("param", 1, "self")
+                ctx.check(okp, "activity", "%s|%s|prob" % (tag, c.name), c.loc(), "%s happens iff a fresh draw < self.params.%s" % (
+                    "market order" if want == "p_market" else "limit order", want), "%s is gated by %s (expected exactly one draw < self.params.%s)" % (c.name, [render(x) for x in ps], want))
         # mid price observed from the right book
         mids = q.calls("mid_price")
         okm = len(mids) == 1 and not mids[0].guards and not q.cfg.in_loop(mids[0].b)
@@ -278,6 +286,10 @@ def run(ctx):
             has_act = any(a[0] == "cmp" and a[1] == "eq" and a[2][0] == "call" and a[2][4] == "order_status" and same(a[2][2][1], slot) and a[3][0] == "agg" and a[3][2].endswith("Status::Active") for a in g)
             ctx.check(has_some and has_act and same(cc[0].args[1], slot), "random", tag + "|cancel", cc[0].loc(), "cancels its own slot's order only when the slot is Some and that order is Active",
                       "cancel under [%s] of %s" % (cc[0].gtext(), render(cc[0].args[1])))
+            for c in (cc[0], pc[0]):
+                ps = [a[3] for a in c.guards if a[0] == "cmp" and a[1] == "lt" and a[2][0] == "call" and a[2][4] == "gen"]
+                ctx.check(len(ps) == 1 and path_text(ps[0]).endswith("activity_rate"), "activity", "%s|%s|prob" % (tag, c.name), c.loc(),
+                          "an agent acts iff a fresh draw < its activity_rate", "%s is gated by %s" % (c.name, [render(x) for x in ps]))
             # place on the complementary branch: not reachable together with the cancel
             compl = not cq.cfg.can_reach(cc[0].b, pc[0].b) and not cq.cfg.can_reach(pc[0].b, cc[0].b)
             ctx.check(compl, "random", tag + "|exclusive", pc[0].loc(), "placing and cancelling are on complementary branches (at most one live order per slot)")
